@@ -27,7 +27,7 @@ ASSUMPTIONS = [
     "autodiscover(int n) scans 0..n-1 as coded (the docstring is ambiguous); 'healthy' = status bits 'short address is mask' and 'reset state' clear",
 ]
 SANITY = ["scan_runs", "scan_runs_with_fault", "scan_map_entries"]
-BOUNDS = {"quick": "input values: all for resolution<=8, structured above; scan: N<=2 devices (+3 on a reduced archetype set), 1 fault",
+BOUNDS = {"quick": "input values: all for resolution<=8, structured above; scan: N<=2 devices (+3 on a reduced archetype set), 1 fault; 64 addresses x instances {0,1,31} + addresses {0,5,63} x 32 instances x {object, int}",
           "thorough": "input values: all for resolution<=12; scan: N<=3, 2 faults on N<=2"}
 
 
